@@ -181,7 +181,42 @@ def operator_blanks():
     return bad
 
 
+HIDES = {
+    "src/kinds_a.f90": "module kinds_a\n  implicit none\n  type :: cfg\n    integer :: from_a\n  end type cfg\ncontains\n  subroutine setup()\n  end subroutine setup\nend module kinds_a\n",
+    "src/kinds_b.f90": "module kinds_b\n  implicit none\n  type :: cfg\n    integer :: from_b\n  end type cfg\n  integer :: level\ncontains\n  subroutine setup()\n  end subroutine setup\nend module kinds_b\n",
+    "src/host.f90": ("module host\n  use kinds_a\n  implicit none\n  integer :: level\ncontains\n  subroutine inner_user()\n    use kinds_b, only: cfg, setup, level\n    type(cfg) :: c\n    call setup()\n"
+                     "  end subroutine inner_user\n  subroutine plain_user()\n    type(cfg) :: c\n    call setup()\n  end subroutine plain_user\nend module host\n"),
+}
+
+
+def use_hides_host():
+    """a USE in a nested scope that imports a name its host already has (declared there or use-associated there): the imported entity is the one the nested scope sees"""
+    proj = realrun.build_project(HIDES, display=["public", "private", "protected"], proc_internals=True)
+    mods = {m.name.lower(): m for m in proj.modules}
+    a, b, h = mods["kinds_a"], mods["kinds_b"], mods["host"]
+    subs = {p.name: p for p in h.subroutines}
+    bad = []
+    for name, src, what in (("inner_user", b, "kinds_b (its own USE)"), ("plain_user", a, "kinds_a (through the host)")):
+        p = subs[name]
+        if p.all_types.get("cfg") is not src.all_types.get("cfg"):
+            bad.append(f"host::{name}: type cfg is not the one of {what}")
+        if p.all_procs.get("setup") is not src.all_procs.get("setup"):
+            bad.append(f"host::{name}: procedure setup is not the one of {what}")
+    if subs["inner_user"].all_vars.get("level") is not b.all_vars.get("level"):
+        bad.append("host::inner_user: variable level is the host's, not the one imported from kinds_b")
+    return bad
+
+
 def search():
+    from bounded import c07
+    bad = c07.interface_body_uses()
+    if bad:
+        return {"confirmed": True, "input": {"files": c07.IFACE_BODIES}, "actual": bad, "expected": "a USE inside an interface body imports into that body",
+                "how": "bounded search on the real pipeline: USE statements in the bodies of a generic and of a plain interface block"}
+    bad = use_hides_host()
+    if bad:
+        return {"confirmed": True, "input": {"files": HIDES}, "actual": bad, "expected": "a use-associated name hides the host's entity of the same name",
+                "how": "bounded search on the real pipeline: a contained procedure imports names its host module also has"}
     bad = operator_blanks()
     if bad:
         return {"confirmed": True, "input": {"files": OPER}, "actual": bad, "expected": "both spellings of the ONLY list import the two generic interfaces",
